@@ -167,6 +167,14 @@ def canon(test, truth: bool = True) -> set:
         r = _order(left, op, right, truth)
         if r is not None:
             return r
+    if isinstance(test, ast.Compare) and len(test.ops) >= 2 and not truth:
+        # not (a OP b OP c) is not (a OP b and b OP c)
+        links = []
+        left = test.left
+        for op, right in zip(test.ops, test.comparators):
+            links.append(ast.Compare(left=left, ops=[op], comparators=[right]))
+            left = right
+        return canon(ast.BoolOp(op=ast.And(), values=links), False)
     if isinstance(test, ast.Compare) and len(test.ops) >= 2 and truth:
         # a OP b OP c (true) == every link true
         out = set()
